@@ -103,6 +103,7 @@ type ExploreConfig struct {
 	Trace     bool
 	SolverLog string
 	FixedPrefix []decision
+	ReplayTrace [][3]uint64 // engine replay: decisions (D, V, K) of a recorded path; only that path is run
 	Params    map[string]int
 	Watch     map[string]string
 	Seed      int
@@ -181,6 +182,14 @@ func (p *Program) Explore(cfg ExploreConfig) (*Explorer, error) {
 	}
 	order := initOrder(pkg, initOK)
 
+	if cfg.ReplayTrace != nil {
+		var pre []decision
+		for _, d := range cfg.ReplayTrace {
+			pre = append(pre, decision{D: int32(d[0]), V: d[1], K: uint8(d[2])})
+		}
+		cfg.FixedPrefix = pre
+		ex.Bounds.MaxPaths = 1
+	}
 	ex.push(workItem{prefix: cfg.FixedPrefix})
 	var wg sync.WaitGroup
 	for w := 0; w < ex.Workers; w++ {
